@@ -178,7 +178,7 @@ def draw_config(rng, family, wmax=16, dmax=8, nodes_max=4, events=(20, 80), **ov
         pool = base_pool(rng, cfg.get("mkl"))
     cfg["pool"] = [hexk(k) for k in pool]
     if over.get("thresholds", True):
-        plan_threshold(rng, cfg, shared_ok=bool(over.get("thr_shared")))
+        plan_threshold(rng, cfg, shared_ok=bool(over.get("thr_shared")), run_index=over.get("run_index"))
     return cfg
 
 
@@ -189,28 +189,35 @@ def _consts():
     return harvest(boot.SK)
 
 
-def plan_threshold(rng, cfg, shared_ok=False, prob=0.05):
-    """Constant-guided swarm: with probability `prob` this run sizes one dimension of its
-    workload around a constant harvested from the tree under test (see consts.py)."""
-    if rng.random() >= prob:
+THRESHOLD_EVERY = 12  # every 12th run of a batch is a threshold run
+
+
+def plan_threshold(rng, cfg, shared_ok=False, run_index=None):
+    """Constant-guided swarm: every THRESHOLD_EVERY-th run sizes one dimension of its
+    workload around a constant harvested from the tree under test (see consts.py). The
+    (constant, dimension) pairs are walked round-robin over the batch, so that every pair
+    is exercised several times per batch whatever the seed."""
+    if run_index is None or run_index % THRESHOLD_EVERY != 7:
         return cfg
     cs = _consts()["ints"]
     if not cs:
         return cfg
     fam = cfg["family"]
-    C = rng.choice(cs)
     dims = ["mult", "list_len", "ngram_windows", "key_len"]
     if fam != "hll":
-        dims += ["cells", "cells"]
+        dims += ["cells"]
     if fam in CMS:
         dims += ["table_bytes"]
-    if shared_ok and cfg.get("shared"):
-        dims += ["shm_multiple", "shm_multiple"]
-    dim = rng.choice(dims)
+    if shared_ok:
+        dims += ["shm_multiple"]
+    limits = {"mult": 1 << 26, "list_len": 1 << 17, "ngram_windows": (1 << 17) if fam == "hll" else 2048, "key_len": 4096,
+              "cells": (1 << 12) if fam == "hh" else (1 << 21), "table_bytes": 1 << 25, "shm_multiple": 1 << 16}
+    pairs = [(C, d) for d in dims for C in cs if C <= limits[d]]
+    if not pairs:
+        return cfg
+    C, dim = pairs[(run_index // THRESHOLD_EVERY) % len(pairs)]
     itemsize = {"linear": 4, "log16": 2, "log8": 1}.get(fam, 1)
     thr = {"dim": dim, "C": C}
-    if dim == "ngram_windows" and fam != "hll" and C > 2048:
-        dim = thr["dim"] = "list_len"  # a counting sketch's universe would grow by C windows
     if dim == "list_len" and C <= (1 << 17):
         thr["lens"] = [max(0, C + d) for d in (-1, 0, 1, 2)] + [2 * C + 1]
     elif dim == "ngram_windows" and C <= (1 << 17):
